@@ -232,7 +232,8 @@ def rule_slotpred(ctx):
     rid = "R-SLOTPRED"
     ctx.rule(rid, "the decision table of each slot predicate is extracted by abstract evaluation of its MIR (and of the helpers it "
                   "calls) over the finite abstraction {is_last} x {duration = 0 / != 0} x {save_as_reference = 0..3} x {4 frame types} "
-                  "and must equal the reference table of the format")
+                  "and must equal the reference table of the format; the abstraction is exhaustive (duration only through ==0 / !=0, the 2-bit slot "
+                  "number and the four frame types enumerated), so equality of the tables is equality of the predicates for all headers")
     prog = ctx.prog
     fr = prog.crate("jxl_frame")
     adt = fr.adts.get(FT)
@@ -249,12 +250,12 @@ def rule_slotpred(ctx):
         diffs = []
         n = 0
         try:
-            for is_last, dur, sar, ft in itertools.product([0, 1], [0, 1, 1000], [0, 1, 2, 3], range(len(vs))):
+            for is_last, dur, sar, ft in itertools.product([0, 1], [0, absint.NonZero()], [0, 1, 2, 3], range(len(vs))):
                 env = {("self", "is_last"): is_last, ("self", "duration"): dur, ("self", "save_as_reference"): sar,
                        ("self", "frame_type"): absint.Enum(FT, ft, vs[ft])}
                 ev = absint.Evaluator(prog, ext=lambda p, env=env: env.get(p, absint.UNKNOWN))
                 got = ev.call_fn(f, [absint.Ref(("ext", "self"))])
-                want = ref(is_last, dur, sar, vs[ft])
+                want = ref(is_last, 0 if dur == 0 and not isinstance(dur, absint.NonZero) else 1, sar, vs[ft])
                 n += 1
                 if bool(got) != bool(want):
                     diffs.append((is_last, dur, sar, vs[ft], bool(got), bool(want)))
